@@ -360,7 +360,8 @@ func (g *hgen) backend(malformed bool) {
 
 func genHist(c *hx.Ctx, i int) *Hist {
 	g := &hgen{c: c, h: &Hist{}}
-	kinds := []string{"random", "random", "random", "nested", "nested", "alias", "alias", "older", "suicide", "refund", "logs", "badids", "big"}
+	kinds := []string{"random", "random", "random", "nested", "nested", "alias", "alias", "older", "suicide", "refund", "logs", "badids",
+		"random", "nested", "alias", "older", "suicide", "big"}
 	kind := kinds[i%len(kinds)]
 	g.h.Kind = kind
 	if kind == "big" {
